@@ -27,6 +27,10 @@ def run(c):
                                              ' '.join('(' + ' '.join(x for x in cf.split(',') if x) + ')' for cf in cfgs)))
             owners.append((eng, i, cfgs))
     out, _ = run_lines_sharded(vm, lines)
+    # which of the generated charts are inside the reach of run_always_legal (wf_coreb and a compound root)?
+    wfc, _ = run_lines_sharded(vm, ['wfcore %d %s' % (1 if x['late'] else 0, G.sx_tree(x['tree'])) for x in cases])
+    c.cov['charts_in_reach_of_run_always_legal'] = sum(1 for b in wfc if b == '1')
+    c.cov['charts_total'] = len(cases)
     nconf = 0
     distinct = set()
     bad = []      # (eng, i, cfg)
